@@ -297,6 +297,73 @@ func TestC10Aborts(t *testing.T) {
 	RunCases(t, propC10, "C10Aborts", true, next)
 }
 
+// TestC10ManyConns: one service, many client connections (40-160), most of which the service itself has to end (a
+// frame that is not a call, a failing handler, a client that aborts inside a frame or while a reply is being written),
+// interleaved with well-behaved ones. Whatever the service keeps per ended connection must not pile up: every
+// connection is judged by the model, the count returns to zero, and serving ends by Shutdown or by the idle timeout.
+func TestC10ManyConns(t *testing.T) {
+	ifaces := []string{"x.y"}
+	rep := Op{Op: "reply", P: json.RawMessage(`{"ok":1}`)}
+	script := func(conn, id int, ops ...Op) []byte {
+		b, _ := json.Marshal(ScriptParams{Conn: conn, ID: id, Script: ops})
+		return b
+	}
+	mk := func(n int, kinds []int, tr string, idle bool) ProtoCase {
+		c := ProtoCase{Ifaces: ifaces, Transport: tr, Probe: true, IdleEnd: idle, Origin: "C10ManyConns"}
+		for i := 0; i < n; i++ {
+			var cc ConnCase
+			switch kinds[i%len(kinds)] {
+			case 0: // a frame that is not a call ends the connection; the call behind it is never dispatched
+				cc = connFromStream(joinFrames(EncodeCall("x.y.M", script(i, 0, rep), false, false, false), []byte(`[1,2]`), EncodeCall("x.y.N", script(i, 2, rep), false, false, false)))
+			case 1: // the handler fails
+				cc = connFromStream(joinFrames(EncodeCall("x.y.F", script(i, 0, Op{Op: "fail", S: failKinds[i%len(failKinds)]}), false, false, false), EncodeCall("x.y.N", script(i, 1, rep), false, false, false)))
+			case 2: // ill-formed JSON
+				cc = connFromStream(joinFrames([]byte(`{"method":"x.y.M"}}`)))
+			case 3: // the client aborts inside its second frame
+				st := joinFrames(EncodeCall("x.y.M", script(i, 0, rep), false, false, false), EncodeCall("x.y.N", script(i, 1, rep), false, false, false))
+				cc = connFromStream(st)
+				cc.AbortAt = len(st) - 7
+			case 4: // the client vanishes while a large reply is being written to it
+				cc = connFromStream(joinFrames(EncodeCall("x.y.Big", script(i, 0, Op{Op: "reply", P: json.RawMessage(`{"big":` + BigString(300000) + `}`)}), false, false, false)))
+				cc.NoRead = true
+			default: // a well-behaved client
+				cc = connFromStream(joinFrames(EncodeCall("org.varlink.service.GetInfo", nil, false, false, false), EncodeCall("x.y.M", script(i, 1, rep), false, false, false)))
+			}
+			if cc.AbortAt == 0 {
+				cc.AbortAt = -1
+			}
+			c.Conns = append(c.Conns, cc)
+		}
+		return c
+	}
+	cases := []ProtoCase{
+		mk(40, []int{0}, "pipe", false), mk(70, []int{1}, "pipe", true), mk(48, []int{2}, "unix", false), mk(64, []int{0, 1, 2, 5}, "pipe", true),
+		mk(40, []int{3, 5}, "pipe", false), mk(36, []int{4, 5, 0}, "unix", false), mk(160, []int{0, 1, 2, 3, 5}, "pipe", false),
+	}
+	if Thorough() {
+		cases = append(cases, mk(400, []int{0, 1, 2, 3, 5}, "pipe", true), mk(300, []int{0, 1, 2, 5}, "unix", false), mk(120, []int{4, 0}, "unix", false))
+	}
+	shard, nshards := Shard()
+	i := 0
+	next := func() (ProtoCase, bool) {
+		for i < len(cases) {
+			k := i
+			i++
+			if k%nshards == shard {
+				return cases[k], true
+			}
+		}
+		return ProtoCase{}, false
+	}
+	p := propC10
+	p.Check = func(c ProtoCase, st *Stats) error {
+		_, err := ExecProto(c, 3*protoBound)
+		st.Case(HashOf(c), true, nil, "many-connections", "transport:"+c.Transport, fmt.Sprintf("connections:%d", len(c.Conns)))
+		return err
+	}
+	RunCases(t, p, "C10ManyConns", true, next)
+}
+
 func joinFrames(frames ...[]byte) []byte {
 	var b bytes.Buffer
 	for _, f := range frames {
